@@ -137,7 +137,9 @@ def load_ast(src, cfgdir, workdir, tag, cxxdefs=()):
             p = os.path.join(cache, key + '.pkl')
             if os.path.exists(p):
                 try:
-                    return pickle.load(open(p, 'rb'))
+                    tu = pickle.load(open(p, 'rb'))
+                    os.utime(p)          # least-recently-used pruning below
+                    return tu
                 except Exception:
                     pass
     out_json = os.path.join(workdir, tag + '.ast.json')
@@ -153,6 +155,17 @@ def load_ast(src, cfgdir, workdir, tag, cxxdefs=()):
             sys.setrecursionlimit(100000)
             pickle.dump(tu, open(os.path.join(cache, key + '.pkl'), 'wb'), protocol=pickle.HIGHEST_PROTOCOL)
         except Exception:
+            pass
+        try:
+            # the cache is keyed by the preprocessed text, so entries of earlier trees are dead weight: keep the 300 most recently used
+            ents = sorted((os.path.getmtime(os.path.join(cache, f)), f) for f in os.listdir(cache) if f.endswith('.pkl'))
+            if len(ents) > 400:
+                for _, f in ents[:len(ents) - 300]:
+                    try:
+                        os.unlink(os.path.join(cache, f))
+                    except OSError:
+                        pass
+        except OSError:
             pass
     return tu
 
